@@ -280,7 +280,7 @@ func init() {
 			g.ft.Names = []string{"n1", "n2"}
 			g.ft.Groups = []string{"g1", "g2"}
 			if g.r.P(0.3) {
-				g.ft.Names = append(g.ft.Names, "n1 ")
+				g.ft.Names = append(g.ft.Names, "n1 ", "n1,x")
 				g.ft.Groups = append(g.ft.Groups, "g1 ")
 			}
 			g.ft.As = true
